@@ -14,6 +14,8 @@ Record meas := MkMeas { m_q : Z; m_tag : Z; m_uid : Z; m_qi : Z; m_ci : Z; m_sta
 Record obs := MkObs {
   o_listing : list item;                 (* circuit.operations *)
   o_sched : list (list ChannelIdentifier * Z * Z);   (* channel identifiers, start, end (ticks) of every listed operation *)
+  o_subs : list (list ChannelIdentifier * Z * Z * list nat);   (* every sub-circuit, recursively: channel identifiers, start,
+                                                        start + duration, positions of the listed operations it contains *)
   o_regs : list (list item);             (* listings of the other reference circuits met *)
   o_meas : list meas;                    (* in listing order *)
   o_byq : list (Z * list Z);             (* get_acquisition_indices(q) *)
@@ -95,16 +97,42 @@ Definition spec_record (o : obs) : bool :=
                            | Some q => (0 <=? m_ci m) && (q =? m_q m) | None => false end) ms
   end.
 
-(* per qubit the index increases with start time -- for circuits free of channel overlaps: no two listed operations that share a
-   channel (ChannelIdentifier.__eq__, generated in Gen/Ident.v) are active at the same time *)
+(* per qubit the index increases with start time -- for circuits free of channel overlaps.  Two things that share a channel
+   (ChannelIdentifier.__eq__, generated in Gen/Ident.v) must not be active at the same time, where a sub-circuit counts as an
+   operation occupying its channels for its whole extent (start .. start + duration):
+   - two listed operations;
+   - a listed operation and a sub-circuit that does not contain it;
+   - two sub-circuits, unless one contains the other. *)
 Definition share_channel (a b : list ChannelIdentifier) : bool :=
   existsb (fun x => existsb (fun y => ChannelIdentifier_eq x y) b) a.
-Fixpoint overlap_free (ops : list (list ChannelIdentifier * Z * Z)) : bool :=
+Definition disjoint_in_time (s e s' e' : Z) : bool := (e <=? s') || (e' <=? s).
+Fixpoint ops_overlap_free (ops : list (list ChannelIdentifier * Z * Z)) : bool :=
   match ops with
   | [] => true
   | (ch, s, e) :: t =>
-      forallb (fun o => let '(ch', s', e') := o in negb (share_channel ch ch') || (e <=? s') || (e' <=? s)) t && overlap_free t
+      forallb (fun o => let '(ch', s', e') := o in negb (share_channel ch ch') || disjoint_in_time s e s' e') t && ops_overlap_free t
   end.
+Definition memb (i : nat) (l : list nat) : bool := existsb (Nat.eqb i) l.
+Definition subset (a b : list nat) : bool := forallb (fun i => memb i b) a.
+Fixpoint op_sub_overlap_free (i : nat) (ops : list (list ChannelIdentifier * Z * Z))
+                             (subs : list (list ChannelIdentifier * Z * Z * list nat)) : bool :=
+  match ops with
+  | [] => true
+  | (ch, s, e) :: t =>
+      forallb (fun sb => let '(ch', s', e', mem) := sb in
+                         memb i mem || negb (share_channel ch ch') || disjoint_in_time s e s' e') subs
+      && op_sub_overlap_free (S i) t subs
+  end.
+Fixpoint subs_overlap_free (subs : list (list ChannelIdentifier * Z * Z * list nat)) : bool :=
+  match subs with
+  | [] => true
+  | (ch, s, e, mem) :: t =>
+      forallb (fun sb => let '(ch', s', e', mem') := sb in
+                         subset mem mem' || subset mem' mem || negb (share_channel ch ch') || disjoint_in_time s e s' e') t
+      && subs_overlap_free t
+  end.
+Definition overlap_free (o : obs) : bool :=
+  ops_overlap_free (o_sched o) && op_sub_overlap_free 0 (o_sched o) (o_subs o) && subs_overlap_free (o_subs o).
 Definition spec_time (ms : list meas) : bool :=
   forallb (fun a => forallb (fun b => negb ((m_q a =? m_q b) && (m_start a <? m_start b)) || (m_qi a <? m_qi b)) ms) ms.
 
@@ -114,7 +142,7 @@ Definition spec_wellformed (implicit : bool) (o : obs) : bool :=
   && list_eqb key_eqb (listing_keys (o_listing o)) (map mkey ms)                  (* every listed measurement is reported, in order *)
   && forallb (fun m => (0 <=? m_qi m) && (0 <=? m_ci m)) ms                        (* every measurement has both indices *)
   && spec_enumerates ms && spec_filters o && spec_partition o && spec_record o
-  && (negb (implicit && overlap_free (o_sched o)) || spec_time ms).
+  && (negb (implicit && overlap_free o) || spec_time ms).
 
 (* malformed stream: a measurement whose registry points at an unrelated circuit reports the default (-1, -1) silently;
    the measurements attached to this circuit keep counting every listed measurement *)
